@@ -23,6 +23,7 @@ template <int K, size_t BND> static void roundtrip_h()
         std::istream * is = vf_istream_from(os, vf_stream_len(os), VF_NEVER);
         field<B> g(*is);
         vf_assert(vf::same(f.backend(), g.backend()), 1);          // identical configuration and stored bits
+        if (g_consistent) vf_assert(vf::same_lookup(f.backend(), g.backend()), 1);   // ... and identical values at every lattice coordinate
         vf_assert(vf_istream_pos(is) == vf_stream_len(os), 2);      // the reader consumes exactly what the writer produced
         std::ostream * os2 = vf_ostream();
         g.dump(*os2);
